@@ -135,7 +135,14 @@ def build(h, m, x):
         bi = m.add(_child(h, "bund", x["w"])(), name=x["n"])
         return bi.x
     if k == "slice":
-        return build(h, m, x["of"])[py_index(x["idx"])]
+        parent = build(h, m, x["of"])
+        for pi in x.get("pre", []):
+            # earlier slices taken of the SAME parent object (results dropped): what a slice selects may not depend on them
+            try:
+                parent[py_index(pi)]
+            except Exception:
+                pass
+        return parent[py_index(x["idx"])]
     if k == "cat":
         return h.Concat(*[build(h, m, p) for p in x["parts"]])
     raise ValueError(k)
@@ -257,11 +264,22 @@ def gen_cases(tier, seed):
                 for i2 in [I(i) for i in range(-w - 1, w + 1)] + [R(a, b, t) for a in bnd2 for b in bnd2 for t in (None, -1, 2)]:
                     cases.append({"k": "slice", "of": inner, "idx": i2})
     n_nest2 = len(cases) - n_single
+    # histories: another slice of the same parent object was taken first (written like this one but for an omitted / explicit bound or step)
+    n_hist0 = len(cases)
+    for kind in ("sig", "pref", "cat"):
+        w = 4 if kind == "sig" else 3
+        p = parent_of(kind, w)
+        pres = [R(0, None, -1), R(None, None, -1), R(0, 1, -1), R(None, 1, -1), R(0, None, None), R(None, None, 1), R(None, w, None), R(0, w, 1), R(None, None, 2),
+                R(0, None, 2), R(-1, None, -1), R(w - 1, None, -1), I(0), I(-w)]
+        for pre in pres:
+            for idx in small_indices(w):
+                cases.append({"k": "slice", "of": p, "idx": idx, "pre": [pre]})
+    n_hist = len(cases) - n_hist0
     rnd = random.Random(seed)
     nrand = 3000 if tier == "quick" else 40000
     for _ in range(nrand):
         cases.append(rand_expr(rnd, rnd.choice([2, 3, 3]), {}))
-    return cases, {"single_level": n_single, "concat_and_depth2": n_nest2, "random_depth_2_3": nrand}
+    return cases, {"single_level": n_single, "concat_and_depth2": n_nest2, "random_depth_2_3": nrand, "after_another_slice_of_the_same_parent": n_hist}
 
 
 def run(tier, seed, replay_file=None):
